@@ -222,7 +222,7 @@ let run_line (line : string) =
        let g = gx gr in
        let (tk, spn) =
          (match ik with
-          | A "str" | A "slice" | A "array" | A "stream" | A "bstream" | A "mapspan" | A "withctx" | A "bytes" | A "io" ->
+          | A "str" | A "slice" | A "array" | A "stream" | A "bstream" | A "mapspan" | A "withctx" | A "bytes" | A "io" | A "graphemes" | A "gslice" ->
             (toks inp, spn_plain)
           | A "mapped" | A "mappedstream" | A "iter" ->
             (match inp with
